@@ -7,6 +7,7 @@
 -/
 import SqlizeModel.Abs.Columns
 import SqlizeModel.Proofs.WalkRefine
+import SqlizeModel.Proofs.EndToEnd
 
 namespace Sqlize.C13
 open Sqlize
@@ -45,6 +46,20 @@ theorem printed_ignore (g : Globals) (hio : g.ignoreOrder = true) (hd : g.dialec
     Abs.execAll (oldNames cols) ((Table.walkCols g tb true [] cols).1.filterMap colStmt)
       = some (Abs.keptSide (absCols cols) ++ Abs.addedSide (absCols cols)) :=
   printed_up_ignore_correct g hio hd tb cols hact hnd
+
+/-- from scripts to printed statements under the option: no positional clause; kept columns stay, added ones are appended -/
+theorem columns_from_scripts (g : Globals) (hg : g.dialect = .mysql) (hio : g.ignoreOrder = true) (rc : Bool)
+    (old new : List Stmt) (dbO dbN : Spec.DB) (ho : old.all Stmt.colSafe = true) (hn : new.all Stmt.colSafe = true)
+    (heo : Spec.execAll rc [] old = some dbO) (hen : Spec.execAll rc [] new = some dbN)
+    (d : Migration) (hd : loadAndDiff g old new = .ok d)
+    (t : String) (tbO tbN : Spec.TableSpec) (hfo : dbO.find t = some tbO) (hfn : dbN.find t = some tbN)
+    (hc : Abs.OrderCompatible tbN.colNames tbO.colNames) (hne : ∀ n ∈ tbN.colNames ++ tbO.colNames, n ≠ "") :
+    ∃ td ∈ d.tables, td.name = t ∧ td.arrange = .ok td ∧
+      td.migrationColumnUp g = .ok (Table.walkCols g t true [] td.cols) ∧
+      (∀ s ∈ (Table.walkCols g t true [] td.cols).1.filterMap colStmt, ∀ c p, s ≠ Abs.Stmt.addCol c p) ∧
+      Abs.execAll tbO.colNames ((Table.walkCols g t true [] td.cols).1.filterMap colStmt) =
+        some (Abs.keptSide (Abs.tagged tbN.colNames tbO.colNames) ++ Abs.addedSide (Abs.tagged tbN.colNames tbO.colNames)) :=
+  columns_end_to_end_ignore g hg hio rc old new dbO dbN ho hn heo hen d hd t tbO tbN hfo hfn hc hne
 
 example : Abs.emitUpIgnore (Abs.tagged ["z", "a", "b"] ["a", "c", "b"]) = [.appendCol "z", .dropCol "c"] := by decide
 
